@@ -5,7 +5,7 @@
   `ReadBuf.read_mpint2`, as `harness/translate_logic.py` reads them from the source on every run (`struct.unpack` of one field is
   `Py.unpack1`, the `for i in range(0, len(v), 4)` loop a fold that can raise).  `read_mpint2_eq_model` says that together they compute the
   two's-complement value of the byte string — `Wire.signedBE`, the function the round-trip theorems of C10 are about — for every non-empty
-  byte string.  (The defect D01 lived here: every 32-bit word was unpacked as signed.)
+  byte string.  The second half of the file does the same for the writer, `WriteBuf._create_mpint`.  (The defect D01 lived here: every 32-bit word was unpacked as signed.)
 -/
 import SshAudit.Gen.Logic5
 import SshAudit.Lemmas.Py
@@ -447,5 +447,305 @@ theorem regenerated_reader_inverts_writer (n : Int) (hn : n ≠ 0) :
     rw [h0] at this
     exact hn (by simpa [Wire.signedBE] using this.symm)
   rw [parse_mpint_eq_model _ hne, Wire.natsOf_bytesOf _ (C10.createMpint_lt n), C10.createMpint_signed]
+
+/-! ## the writer: `WriteBuf._create_mpint` (round 17)
+
+  `Gen.Logic.create_mpint` is the body of `_create_mpint` from `length = …` to the final `if`, as the translator reads it from the source (the
+  64-bit word loop with `v2[ql - i - 1] = n & 0xffffffffffffffff; n >>= 64` is a fold over `(v2, n)`, `struct.pack('>{}Q'.format(ql), *v2)` is
+  `Py.packQ`, `[-length:]`, `lstrip`, `startswith` the `Py` primitives of those names).  `create_mpint_eq_model`: for `bits = n.bit_length()`
+  — what `_bitlength` returns, outside the translated block — it computes `Wire.createMpint` (signed) / `Wire.createMpintI` (unsigned), the
+  functions the round-trip theorems of C10 are about.  `regenerated_roundtrip` composes the two regenerated definitions. -/
+
+/-- the low `L` base-256 digits of an integer in two's complement, most significant first -/
+def toBEi (n : Int) : Nat → List Nat
+  | 0 => []
+  | L+1 => toBEi (n / 256) L ++ [(n % 256).toNat]
+
+theorem toBEi_length (n : Int) (L : Nat) : (toBEi n L).length = L := by
+  induction L generalizing n with
+  | zero => rfl
+  | succ L ih => simp [toBEi, ih]
+
+theorem emod_mul_ediv (n C : Int) (hC : 0 < C) : n % (256 * C) / 256 = n / 256 % C := by
+  have h1 := Int.mul_ediv_add_emod n 256
+  have h2 := Int.mul_ediv_add_emod (n/256) C
+  have hr0 := Int.emod_nonneg n (by decide : (256:Int) ≠ 0)
+  have hr1 := Int.emod_lt_of_pos n (by decide : (0:Int) < 256)
+  have hs0 := Int.emod_nonneg (n/256) (Int.ne_of_gt hC)
+  have hs1 := Int.emod_lt_of_pos (n/256) hC
+  have key : n % (256 * C) = 256 * (n / 256 % C) + n % 256 := by
+    have hb : 0 < 256 * C := by omega
+    have := (Int.ediv_emod_unique (a := n) (b := 256 * C) (r := 256 * (n / 256 % C) + n % 256) (q := n / 256 / C) hb).mpr
+      ⟨by grind, by omega, by omega⟩
+    exact this.2
+  rw [key]; omega
+
+theorem toBEi_eq (n : Int) (L : Nat) : toBEi n L = Wire.toBE ((n % (256 : Int) ^ L).toNat) L := by
+  induction L generalizing n with
+  | zero => rfl
+  | succ L ih =>
+    have hC : (0 : Int) < 256 ^ L := Int.pow_pos (by decide)
+    have hp : (256 : Int) ^ (L + 1) = 256 * 256 ^ L := by rw [Int.pow_succ, Int.mul_comm]
+    have h1 := emod_mul_ediv n _ hC
+    have h2 : n % (256 * 256 ^ L) % 256 = n % 256 := Int.emod_emod_of_dvd n (Int.dvd_mul_right _ _)
+    have h0 := Int.emod_nonneg n (Int.ne_of_gt (by omega : (0:Int) < 256 * 256 ^ L))
+    have h3 := Int.emod_nonneg (n/256) (Int.ne_of_gt hC)
+    simp only [toBEi, Wire.toBE, ih, hp]
+    congr 2
+    · congr 1; omega
+    · omega
+
+theorem toBEi_add (n : Int) (a b : Nat) : toBEi n (a + b) = toBEi (n / (256 : Int) ^ b) a ++ toBEi n b := by
+  induction b generalizing n with
+  | zero => simp [toBEi]
+  | succ b ih =>
+    have hp : (256 : Int) ^ (b + 1) = 256 * 256 ^ b := by rw [Int.pow_succ, Int.mul_comm]
+    rw [← Nat.add_assoc]
+    simp only [toBEi, ih, hp, List.append_assoc]
+    rw [Int.ediv_ediv_of_nonneg (by decide)]
+
+theorem toBEi_drop (n : Int) (k l : Nat) : (toBEi n (k + l)).drop k = toBEi n l := by
+  rw [toBEi_add]
+  exact List.drop_left' (toBEi_length (n / (256 : Int) ^ l) k)
+
+/-- the low `k` base-2^64 digits of an integer in two's complement, most significant first: what the loop of `_create_mpint` leaves in `v2` -/
+def wordsBE (n : Int) : Nat → List Int
+  | 0 => []
+  | k+1 => wordsBE (n / 18446744073709551616) k ++ [n % 18446744073709551616]
+
+theorem wordsBE_length (n : Int) (k : Nat) : (wordsBE n k).length = k := by
+  induction k generalizing n with
+  | zero => rfl
+  | succ k ih => simp [wordsBE, ih]
+
+theorem wordsBE_range (n : Int) (k : Nat) : ∀ x ∈ wordsBE n k, 0 ≤ x ∧ x < 18446744073709551616 := by
+  induction k generalizing n with
+  | zero => intro x hx; cases hx
+  | succ k ih =>
+    intro x hx
+    simp only [wordsBE, List.mem_append, List.mem_singleton] at hx
+    rcases hx with hx | hx
+    · exact ih _ x hx
+    · subst hx; omega
+
+theorem beBytes_eq (m L : Nat) : Py.beBytes m L = Wire.bytesOf (Wire.toBE m L) := by
+  induction L generalizing m with
+  | zero => rfl
+  | succ L ih => simp [Py.beBytes, Wire.toBE, Wire.bytesOf, ih]
+
+theorem pow8 : (256 : Int) ^ 8 = 18446744073709551616 := by decide
+
+theorem flatMap_words (n : Int) (k : Nat) :
+    (wordsBE n k).flatMap (fun x => Py.beBytes x.toNat 8) = Wire.bytesOf (toBEi n (8 * k)) := by
+  induction k generalizing n with
+  | zero => rfl
+  | succ k ih =>
+    have h8 : 8 * (k + 1) = 8 * k + 8 := by omega
+    rw [h8, toBEi_add, pow8]
+    simp only [wordsBE, List.flatMap_append, List.flatMap_cons, List.flatMap_nil, List.append_nil]
+    have hw : Wire.toBE (n % 18446744073709551616).toNat 8 = toBEi n 8 := by
+      rw [toBEi_eq, pow8]
+    rw [ih, beBytes_eq, hw]
+    simp [Wire.bytesOf]
+
+theorem xor_mask (r : Nat) (hr : r < 18446744073709551616) : 18446744073709551615 ^^^ r = 18446744073709551615 - r := by
+  have h := BitVec.toNat_not (x := BitVec.ofNat 64 r)
+  rw [BitVec.not_def, BitVec.toNat_xor, BitVec.toNat_allOnes, BitVec.toNat_ofNat] at h
+  have h2 : r % 2 ^ 64 = r := Nat.mod_eq_of_lt (by simpa using hr)
+  rw [h2] at h
+  simpa using h
+
+theorem and_mask (m : Nat) : m &&& 18446744073709551615 = m % 18446744073709551616 := by
+  have := Nat.and_two_pow_sub_one_eq_mod m 64
+  simpa using this
+
+theorem band_mask (x : Int) : Py.band x 18446744073709551615 = x % 18446744073709551616 := by
+  cases x with
+  | ofNat m =>
+    have h : Py.band (Int.ofNat m) (Int.ofNat 18446744073709551615) = Int.ofNat (m &&& 18446744073709551615) := rfl
+    show Py.band (Int.ofNat m) (Int.ofNat 18446744073709551615) = _
+    rw [h, and_mask]
+    simp only [Int.ofNat_eq_natCast]; omega
+  | negSucc m =>
+    have h : Py.band (Int.negSucc m) (Int.ofNat 18446744073709551615) = Int.ofNat (18446744073709551615 ^^^ (18446744073709551615 &&& m)) := rfl
+    show Py.band (Int.negSucc m) (Int.ofNat 18446744073709551615) = _
+    rw [h, Nat.and_comm, and_mask, xor_mask _ (Nat.mod_lt _ (by decide))]
+    simp only [Int.ofNat_eq_natCast, Int.negSucc_eq]; omega
+
+
+theorem foldlOpt_append {α β} (f : β → α → Option β) (b : β) (xs ys : List α) :
+    Py.foldlOpt f b (xs ++ ys) = (Py.foldlOpt f b xs).bind (fun b' => Py.foldlOpt f b' ys) := by
+  induction xs generalizing b with
+  | nil => rfl
+  | cons x xs ih =>
+    simp only [List.cons_append, Py.foldlOpt_cons]
+    cases f b x with
+    | none => rfl
+    | some b' => simp only [Option.bind_some, ih]
+
+theorem setAt_replicate (k : Nat) (W : List Int) (x : Int) :
+    Py.setAt? (List.replicate (k + 1) (0 : Int) ++ W) k x = some (List.replicate k 0 ++ x :: W) := by
+  induction k with
+  | zero => rfl
+  | succ k ih =>
+    show Py.setAt? ((0 : Int) :: (List.replicate (k + 1) (0 : Int) ++ W)) (k + 1) x = _
+    simp only [Py.setAt?, ih]
+    rfl
+
+/-- the most significant of `k + 1` words first -/
+theorem wordsBE_cons (n : Int) (k : Nat) :
+    wordsBE n (k + 1) = (n / (18446744073709551616 : Int) ^ k % 18446744073709551616) :: wordsBE n k := by
+  induction k generalizing n with
+  | zero => simp [wordsBE]
+  | succ k ih =>
+    have hp : (18446744073709551616 : Int) ^ (k + 1) = 18446744073709551616 * 18446744073709551616 ^ k := by rw [Int.pow_succ, Int.mul_comm]
+    rw [wordsBE, ih, hp, Int.ediv_ediv_of_nonneg (by decide)]
+    rfl
+
+/-- one pass of the loop of `_create_mpint` -/
+def cmStep (ql : Int) (acc_ : List Int × Int) (i : Int) : Option (List Int × Int) :=
+  (Py.setItem acc_.1 ((ql - i) - (1 : Int)) (Py.band acc_.2 (18446744073709551615 : Int))).bind fun v2_2 => some (v2_2, acc_.2 >>> (64 : Nat))
+
+theorem cm_loop (Q : Nat) (n : Int) (i : Nat) (hi : i ≤ Q) :
+    Py.foldlOpt (cmStep (Q : Int)) (List.replicate Q (0 : Int), n) ((List.range i).map Int.ofNat)
+      = some (List.replicate (Q - i) (0 : Int) ++ wordsBE n i, n / (18446744073709551616 : Int) ^ i) := by
+  induction i with
+  | zero => simp [wordsBE]
+  | succ i ih =>
+    rw [List.range_succ, List.map_append, foldlOpt_append, ih (by omega)]
+    simp only [Option.bind_some, List.map_cons, List.map_nil, Py.foldlOpt_cons, Py.foldlOpt_nil, cmStep]
+    have hidx : ((Q : Int) - Int.ofNat i - 1) = ((Q - (i + 1) : Nat) : Int) := by simp only [Int.ofNat_eq_natCast]; omega
+    have hrep : List.replicate (Q - i) (0 : Int) = List.replicate ((Q - (i + 1)) + 1) 0 := by congr 1; omega
+    rw [hidx, hrep]
+    simp only [Py.setItem, Int.natCast_nonneg, if_true, Int.toNat_natCast, setAt_replicate, Option.bind_some, band_mask, wordsBE_cons]
+    have hp : (18446744073709551616 : Int) ^ (i + 1) = 18446744073709551616 ^ i * 18446744073709551616 := Int.pow_succ _ _
+    rw [Int.shiftRight_eq_div_pow, hp, ← Int.ediv_ediv_of_nonneg (Int.le_of_lt (Int.pow_pos (by decide)))]
+    rfl
+
+theorem ofNat_eq_iff (a : Nat) (c : Nat) (ha : a < 256) (hc : c < 256) : (UInt8.ofNat a == UInt8.ofNat c) = decide (a = c) := by
+  by_cases h : a = c
+  · subst h; simp
+  · simp only [h, decide_false, beq_eq_false_iff_ne, ne_eq]
+    intro he
+    have := congrArg UInt8.toNat he
+    simp only [UInt8.toNat_ofNat'] at this
+    omega
+
+theorem lstrip_bytesOf (L : List Nat) (h : ∀ d ∈ L, d < 256) :
+    Py.lstripB (Wire.bytesOf L) ([0] : Bytes) = Wire.bytesOf (L.dropWhile (· = 0)) := by
+  induction L with
+  | nil => rfl
+  | cons a L ih =>
+    have ha : a < 256 := h a (List.mem_cons_self)
+    have hL : ∀ d ∈ L, d < 256 := fun d hd => h d (List.mem_cons_of_mem _ hd)
+    have ih' := ih hL
+    unfold Py.lstripB at ih' ⊢
+    have hc : (([0] : Bytes).contains (UInt8.ofNat a)) = decide (a = 0) := by
+      have := ofNat_eq_iff a 0 ha (by decide)
+      have h0 : (UInt8.ofNat a == (0 : UInt8)) = decide (a = 0) := this
+      simp only [List.contains, List.elem, h0]
+      cases decide (a = 0) <;> rfl
+    simp only [Wire.bytesOf, List.map_cons, List.dropWhile_cons, hc]
+    by_cases h0 : a = 0
+    · simp only [h0, decide_true, if_true]; exact ih'
+    · simp only [h0, decide_false]; rfl
+
+theorem stripFF_bytesOf (L : List Nat) (h : ∀ d ∈ L, d < 256) :
+    (if Py.startsWithB (Wire.bytesOf L) ([255, 128] : Bytes) then Py.sliceFrom (Wire.bytesOf L) (1 : Int) else Wire.bytesOf L)
+      = Wire.bytesOf (Wire.stripFF L) := by
+  match L, h with
+  | [], _ => rfl
+  | [a], _ => simp [Py.startsWithB, Wire.bytesOf, Wire.stripFF, List.isPrefixOf]
+  | a :: b :: rest, h =>
+    have ha : a < 256 := h a (by simp)
+    have hb : b < 256 := h b (by simp)
+    have e1 := ofNat_eq_iff 255 a (by decide) ha
+    have e2 := ofNat_eq_iff 128 b (by decide) hb
+    have hs : Py.startsWithB (Wire.bytesOf (a :: b :: rest)) ([255, 128] : Bytes) = (decide (255 = a) && decide (128 = b)) := by
+      show List.isPrefixOf [UInt8.ofNat 255, UInt8.ofNat 128] (UInt8.ofNat a :: UInt8.ofNat b :: Wire.bytesOf rest) = _
+      simp only [List.isPrefixOf, e1, e2, Bool.and_true]
+    rw [hs]
+    by_cases h1 : 255 = a
+    · by_cases h2 : 128 = b
+      · subst h1; subst h2
+        simp [Wire.stripFF, Py.sliceFrom, Py.normIdx, Wire.bytesOf]
+      · subst h1
+        have : Wire.stripFF (255 :: b :: rest) = 255 :: b :: rest := by
+          unfold Wire.stripFF; split
+          · rename_i heq; simp at heq; omega
+          · rfl
+        simp [h2, this]
+    · have : Wire.stripFF (a :: b :: rest) = a :: b :: rest := by
+        unfold Wire.stripFF; split
+        · rename_i heq; simp at heq; omega
+        · rfl
+      simp [h1, this]
+
+/-! ### `_create_mpint` as regenerated from the source is the model's writer -/
+
+theorem create_mpint_eq_model (n : Int) (signed : Bool) :
+    Gen.Logic.create_mpint n signed (Wire.bitLen n.natAbs : Int)
+      = some (Wire.bytesOf (if signed then Wire.createMpint n else Wire.createMpintI n)) := by
+  let len : Nat := Wire.bitLen n.natAbs / 8 + (if n = 0 then 0 else 1)
+  let Q : Nat := (len + 7) / 8
+  have hlen : ((Wire.bitLen n.natAbs : Int) / (8 : Int) + (if (n != (0 : Int)) then (1 : Int) else (0 : Int))) = (len : Int) := by
+    by_cases h0 : n = 0
+    · simp [len, h0]
+    · simp only [len, h0, bne_iff_ne, ne_eq, not_false_eq_true, if_true, if_false]; omega
+  have hql : (((len : Int) + (7 : Int)) / (8 : Int)) = (Q : Int) := by simp only [Q]; omega
+  unfold Gen.Logic.create_mpint
+  simp only [hlen, hql]
+  have hloop : Py.foldlOpt (fun (acc_ : (List Int) × Int) (i : Int) =>
+      Option.bind (Py.setItem acc_.1 (((Q : Int) - i) - (1 : Int)) (Py.band acc_.2 (18446744073709551615 : Int))) fun v2_2 =>
+      some ((v2_2, acc_.2 >>> (64 : Nat)))) ((Py.replicate (Q : Int) (0 : Int), n)) (Py.range (Q : Int))
+      = some (wordsBE n Q, n / (18446744073709551616 : Int) ^ Q) := by
+    have := cm_loop Q n Q (Nat.le_refl _)
+    simp only [Nat.sub_self, List.replicate_zero, List.nil_append] at this
+    simp only [Py.replicate, Py.range, Int.toNat_natCast]
+    exact this
+  rw [hloop]
+  simp only [Option.bind_some]
+  have hpack : Py.packQ ((['>'] : Str) ++ (Py.fmtD (Q : Int)) ++ (['Q'] : Str)) (wordsBE n Q) = some (Wire.bytesOf (toBEi n (8 * Q))) := by
+    unfold Py.packQ
+    rw [if_pos ⟨by rw [wordsBE_length]; rfl, wordsBE_range n Q⟩, flatMap_words]
+  rw [hpack]
+  simp only [Option.bind_some]
+  have hslice : Py.sliceFrom (Wire.bytesOf (toBEi n (8 * Q))) (-(len : Int)) = Wire.bytesOf (toBEi n len) := by
+    unfold Py.sliceFrom Py.normIdx Wire.bytesOf
+    rw [List.length_map, toBEi_length, ← List.map_drop]
+    by_cases hz : len = 0
+    · have hQ : Q = 0 := by simp only [Q]; omega
+      simp [hz, hQ, toBEi]
+    · have hneg : (-(len : Int)) < 0 := by omega
+      rw [if_pos hneg]
+      have hk : (((8 * Q : Nat) : Int) + -(len : Int)).toNat = 8 * Q - len := by omega
+      have hsum : 8 * Q = (8 * Q - len) + len := by simp only [Q]; omega
+      rw [hk]
+      obtain ⟨k, hk2⟩ : ∃ k, 8 * Q = k + len := ⟨8 * Q - len, hsum⟩
+      rw [hk2, Nat.add_sub_cancel, toBEi_drop]
+  rw [hslice, toBEi_eq]
+  have hd := Wire.toBE_lt ((n % (256 : Int) ^ len).toNat) len
+  cases signed with
+  | true =>
+    simp only [Bool.not_true, Bool.false_eq_true, if_false, if_true]
+    rw [stripFF_bytesOf _ hd]
+    rfl
+  | false =>
+    simp only [Bool.not_false, if_true, Bool.false_eq_true, if_false]
+    rw [lstrip_bytesOf _ hd]
+    rfl
+
+/-- writer and reader as they stand in the source today, composed: every non-zero integer written by `_create_mpint` (signed) is read back by
+    `read_mpint2` / `_parse_mpint` — no hand-written model between the two regenerated definitions -/
+theorem regenerated_roundtrip (n : Int) (hn : n ≠ 0) :
+    ((Gen.Logic.create_mpint n true (Wire.bitLen n.natAbs : Int)).bind fun d =>
+      (Gen.Logic.mpint2_pad_fmt d).bind fun pf => Gen.Logic.parse_mpint d pf.1 pf.2) = some n := by
+  rw [create_mpint_eq_model]
+  exact regenerated_reader_inverts_writer n hn
+
+example : Gen.Logic.create_mpint (-129) true 8 = some [255, 127] ∧ Gen.Logic.create_mpint (-128) true 8 = some [128]
+    ∧ Gen.Logic.create_mpint 128 true 8 = some [0, 128] ∧ Gen.Logic.create_mpint 128 false 8 = some [128]
+    ∧ Gen.Logic.create_mpint 0 true 0 = some [] ∧ Gen.Logic.create_mpint 18446744073709551616 true 65 = some [1, 0, 0, 0, 0, 0, 0, 0, 0] := by
+  decide
 
 end SshAudit.GenLogic
